@@ -14,6 +14,7 @@ func init() {
 			rulePoolLifetime(c)
 			rulePublishAtomic(c)
 			ruleAppendTarget(c)
+			ruleSharedStateInventory(c)
 		},
 	})
 }
